@@ -14,7 +14,7 @@ let ncmp a b = let c = ZA.compare (z_of_n a) (z_of_n b) in if c < 0 then "0" els
 
 let eval inp obs =
   match inp with
-  | ["BE"; k; n] ->
+  | "BE" :: k :: n :: _ ->
     let k = nat_of_tok k and n = n_of_tok n in
     let bs = be k n in
     { default_verdict with model_obs = [hex_of_bytes bs; tok_of_n (unbe_k k bs)];
@@ -24,7 +24,7 @@ let eval inp obs =
     let bs = le k n in
     { default_verdict with model_obs = [hex_of_bytes bs; tok_of_n (unle_k k bs)];
       spec_ok = (match obs with [_; d] -> Some (d = tok_of_n n) | _ -> Some false) }
-  | ["CMP"; k; a; b] ->
+  | "CMP" :: k :: a :: b :: _ ->
     let k = nat_of_tok k and a = n_of_tok a and b = n_of_tok b in
     { default_verdict with model_obs = [cmp_tok (lex_compare (be k a) (be k b))];
       spec_ok = Some (obs = [ncmp a b]) }
